@@ -97,6 +97,16 @@ chk("C19", "model_checking",
     "TLA+ spec Parameters.tla model-checked/simulated by TLC; behaviours replayed step by step; implementation traces validated against Trace_Parameters.tla",
     "DESIGN.md section 7 C19")
 
+chk("C12", "model_checking",
+    "TLC checks 11 named laws exhaustively (all pairs of operators) on the permutation tables exported from the tree for the 7 "
+    "crystal systems: group axioms and orders 1,2,4,8,6,12,24, the paired rotations (integers, or exact Z[sqrt3]/6 for "
+    "trigonal/hexagonal) are proper rotations forming a group, and rot.B.perm = B on a basis of the conforming B matrices. It emits the "
+    "exact rotations and, for seeded Cayley rotation pairs, the exact cosine of every misorientation. rotations(), ROTATIONS and "
+    "Umis are compared with these values; the four Umis invariances and Umis(U,U) containing 0 are run as metamorphic calls.",
+    "Trusted: TLC; float sqrt(3) in converting exact values; monoclinic basis for unique axis b.",
+    "TLA+ spec Symmetry.tla (exact integer / Z[sqrt3] algebra) model-checked by TLC on exported tables + replay into rotations()/Umis",
+    "DESIGN.md section 7 C12")
+
 ALL = ["C%02d" % i for i in range(1, 21)]
 
 
